@@ -476,15 +476,18 @@ def joinVisitCallable (H : Hier) (J M : Ty → Ty → Ty) (s : Ty) (t : Ty) (bs 
     else J (.inst H.functionC) s
   | _ => J (.inst H.functionC) s
 
-/-- `visit_instance(t)` -/
+/-- `visit_instance(t)`.  For `self.s` a TypeType / TupleType / LiteralType the code calls
+    `join_types(t, self.s)`: this re-enters `join_types` with swapped operands, neither is a union / None / Never
+    and the truthiness normalisation is idempotent, so it amounts to the other operand's visitor method with
+    `self.s = t`; the model calls that method directly (keeps every recursive call on a smaller pair). -/
 def joinVisitInstance (H : Hier) (J : Ty → Ty → Ty) (s t : Ty) : Ty :=
   match s with
   | .inst _ => joinInstances H J t s
   | .gen _ _ => joinInstances H J t s
   | .callable _ _ => J t (.inst H.functionC)
-  | .typeType _ => J t s
-  | .tuple _ => J t s
-  | .lit _ _ => J t s
+  | .typeType y => joinVisitTypeType H J t y
+  | .tuple ss => joinVisitTuple H J t s ss
+  | .lit c _ => joinVisitLiteral J t s c
   | _ => .inst H.objectC
 
 /-- `Type.can_be_true` of a declared type (`can_be_true_default`); literal values are encoded so that
@@ -543,25 +546,6 @@ def joinStep (H : Hier) (J M : Ty → Ty → Ty) (s0 t0 : Ty) : Ty :=
 
 /-! ## Meet -/
 
-/-- `TypeMeetVisitor(s).visit_instance(t)` -/
-def meetVisitInstance (H : Hier) (M : Ty → Ty → Ty) (s t : Ty) : Ty :=
-  if s.isInstance then
-    if s.cls == t.cls then
-      if isSubtype H t s || isSubtype H s t then
-        match t, s with
-        | .gen c x, .gen _ y => .gen c (M x y)
-        | _, _ => t
-      else .never
-    else if isSubtype H t s then t
-    else if isSubtype H s t then s
-    else .never
-  else
-    match s with
-    | .typeType _ => M t s
-    | .tuple _ => M t s
-    | .lit _ _ => M t s
-    | _ => .never
-
 /-- `visit_callable_type(t)` -/
 def meetVisitCallable (H : Hier) (J M : Ty → Ty → Ty) (s t : Ty) (bs : List Ty) (ret : Ty) : Ty :=
   match s with
@@ -584,15 +568,36 @@ def meetVisitTuple (H : Hier) (M : Ty → Ty → Ty) (s t : Ty) (ts : List Ty) :
   | .inst _ => if isProperSubtype H t s then t else .never
   | _ => .never
 
-/-- `visit_type_type(t)`, `t = Type[y]` -/
+/-- `visit_type_type(t)`, `t = Type[y]` (for a callable `self.s` the code re-dispatches to
+    `visit_callable_type`, which yields the default for a non-type-object callable) -/
 def meetVisitTypeType (H : Hier) (M : Ty → Ty → Ty) (s t : Ty) (y : Ty) : Ty :=
   match s with
   | .typeType x =>
     let m := M y x
     if m.isNone then m else normType m
   | .inst c => if c == H.typeC then t else .never
-  | .callable _ _ => M t s
   | _ => .never
+
+/-- `TypeMeetVisitor(s).visit_instance(t)`.  For `self.s` a TypeType / TupleType / LiteralType the code calls
+    `meet_types(t, self.s)`; the proper-subtype shortcuts were already tried both ways and neither operand is
+    a union, so this amounts to the other operand's visitor method with `self.s = t`, called directly here. -/
+def meetVisitInstance (H : Hier) (M : Ty → Ty → Ty) (s t : Ty) : Ty :=
+  if s.isInstance then
+    if s.cls == t.cls then
+      if isSubtype H t s || isSubtype H s t then
+        match t, s with
+        | .gen c x, .gen _ y => .gen c (M x y)
+        | _, _ => t
+      else .never
+    else if isSubtype H t s then t
+    else if isSubtype H s t then s
+    else .never
+  else
+    match s with
+    | .typeType y => meetVisitTypeType H M t s y
+    | .tuple ss => meetVisitTuple H M t s ss
+    | .lit c _ => if isSubtype H (.inst c) t then s else .never       -- visit_literal_type
+    | _ => .never
 
 /-- one unfolding of `meet_types(s, t)` -/
 def meetStep (H : Hier) (J M : Ty → Ty → Ty) (s0 t0 : Ty) : Ty :=
@@ -625,8 +630,8 @@ def meetF (H : Hier) : Nat → Ty → Ty → Ty
   | n + 1, s, t => meetStep H (joinF H n) (meetF H n) s t
 end
 
-/-- fuel: twice the sizes plus one for the operand-swapping re-dispatch (`join_types(t, self.s)`) -/
-def jmFuel (s t : Ty) : Nat := 2 * (s.size + t.size) + 1
+/-- fuel: every recursive call of `joinStep` / `meetStep` is on a pair of smaller total size -/
+def jmFuel (s t : Ty) : Nat := s.size + t.size
 
 def join (H : Hier) (s t : Ty) : Ty := joinF H (jmFuel s t) s t
 def meet (H : Hier) (s t : Ty) : Ty := meetF H (jmFuel s t) s t
